@@ -429,11 +429,13 @@ def run_harness(binary, cases, timeout=10.0, workers=None, env=None):
     return res
 
 
-def run_prog(srcs, timeout=10.0, fuel=2_000_000, fresh=False, release=False):
+def run_prog(srcs, timeout=10.0, fuel=2_000_000, fresh=False, release=False, cli=False):
     """Convenience: run Noulith programs (strings or lists of statements) through bin/prog."""
     cases = []
     for i, s in enumerate(srcs):
         c = {"id": i, "fuel": fuel, "fresh": fresh}
+        if cli:
+            c["cli"] = True   # the way src/main.rs runs a program: noulith::warn (static freeze pass), then evaluate
         if isinstance(s, str):
             c["src"] = s
         else:
